@@ -241,7 +241,20 @@ def case_nanpct(ctx, inp):
     ctx.branch(fn)
 
 
-CASES = {"merge": case_merge, "pct": case_pct, "nanpct": case_nanpct}
+def case_joint(ctx, inp):
+    """percentiles of the same array for different (q, method) computed in one graph keep their own results"""
+    da = _da()
+    a = np.array([float(v) for v in inp["data"]])
+    x = da.from_array(a, chunks=(tuple(inp["chunks"]),))
+    arrs = [da.percentile(x, [float(Fraction(q)) for q in it["q"]], method=it["method"]) for it in inp["items"]]
+    bad = U.joint_vs_solo(arrs)
+    for i in bad:
+        ctx.fail("a percentile computed together with others differs from the same percentile computed alone",
+                 observed={"item": inp["items"][i], "name": arrs[i].name})
+    ctx.branch(f"joint×{len(arrs)}")
+
+
+CASES = {"joint": case_joint, "merge": case_merge, "pct": case_pct, "nanpct": case_nanpct}
 
 
 # ---------------------------------------------------------------------------------------------
@@ -333,6 +346,14 @@ def generate(ctx):
     yield from gen_exhaustive(ctx)
     yield from gen_pct(ctx, ctx.n(250, 4000))
     yield from gen_nanpct(ctx, ctx.n(60, 800))
+    rng = ctx.rng
+    for _ in range(ctx.n(50, 500)):
+        ln = rng.randint(2, 12)
+        items = [{"q": _s(sorted(_rand_q(rng))), "method": rng.choice(METHODS)} for _ in range(rng.randint(2, 5))]
+        if rng.random() < 0.5:      # same q, different methods
+            for it in items[1:]:
+                it["q"] = items[0]["q"]
+        yield "joint", {"data": [rng.randint(0, 9) for _ in range(ln)], "chunks": list(U.rand_chunks_1d(rng, ln)), "items": items}
 
 
 def search(ctx):
